@@ -221,6 +221,10 @@ func (fc *funcCtx) havoc(st *State, l *Loop) {
 			// the contents of every reference that is not the base of a written slice
 			// variable at loop entry and was allocated before the loop.
 			st.heaps[k] = nh
+			if strings.HasSuffix(k, "_ref") && sortOfHeapKey(k) == SInt {
+				// every slice header in storage was created before now
+				st.assume(fmt.Sprintf("(forall ((r Int) (i Int)) (! (and (<= 0 (select (select %s r) i)) (< (select (select %s r) i) %s)) :pattern ((select (select %s r) i))))", nh, nh, st.allocBase, nh))
+			}
 			if framable[k] {
 				conds := []string{app("<", "r", entryBound)}
 				for _, x := range excluded[k] {
@@ -320,6 +324,10 @@ func (fc *funcCtx) heap(st *State, key string) string {
 	st.heaps[key] = h
 	if st.oldHeaps != nil {
 		st.oldHeaps[key] = h
+	}
+	if strings.HasSuffix(key, "_ref") && sortOfHeapKey(key) == SInt && st.entryBase != "" {
+		// slice headers stored in storage that predates the call point to storage that predates it
+		st.assume(fmt.Sprintf("(forall ((r Int) (i Int)) (! (=> (< r %s) (and (<= 0 (select (select %s r) i)) (< (select (select %s r) i) %s))) :pattern ((select (select %s r) i))))", st.entryBase, h, h, st.entryBase, h))
 	}
 	return h
 }
